@@ -27,14 +27,14 @@ func post(op, path string) {
 }
 
 type (
-	FileInfo  = os.FileInfo
-	FileMode  = os.FileMode
-	File      = os.File
-	DirEntry  = os.DirEntry
-	PathError = os.PathError
-	LinkError = os.LinkError
+	FileInfo     = os.FileInfo
+	FileMode     = os.FileMode
+	File         = os.File
+	DirEntry     = os.DirEntry
+	PathError    = os.PathError
+	LinkError    = os.LinkError
 	SyscallError = os.SyscallError
-	Signal    = os.Signal
+	Signal       = os.Signal
 )
 
 const (
